@@ -103,15 +103,15 @@ CLAIMS = {
         technique="Lean 4 `decide +kernel` over regenerated finite tables + proofs about the detector model + exhaustive CLI matrix",
         ref="DESIGN.md §3 C15"),
     "C07": dict(
-        text=("Kernel-checked theorems about the orchestrator state machine, for all rule plug-ins, file lists, worker counts and "
-              "completion orders: below the threshold the parallel entry point is the sequential one; per-file findings and exit "
-              "code are independent of the schedule (any two completion orders give permutations); a fresh object's parallel run "
-              "is a permutation of the sequential run whenever no cross-file finding exists (the hypothesis is forced: "
-              "crossfile_lost_witness, known finding F07a); to_dict/from_dict round-trips every field. The model is run on the "
-              "per-file results observed on the real tool and must reproduce the real pooled run *exactly, including order*, "
-              "for forced completion orders; CLI sequential vs --parallel compared field by field."),
+        text=("Kernel-checked theorems about the orchestrator state machine, for all rule plug-ins, file lists (repeated entries included), "
+              "worker counts, completion orders and prior states of the object: the parallel run is a permutation of the sequential "
+              "run - per-file and cross-file findings alike (parallel_eq_sequential) - with the same exit code and the same state left "
+              "behind; below the threshold the parallel entry point is the sequential one; to_dict/from_dict round-trips every "
+              "field. The pre-repair pooled branch (finding F07a, repaired by b158f57) is kept as lintFilesParallelOld with its witness. "
+              "The model is run on the per-file and finalize results observed on the real tool and must give the multiset of the real "
+              "pooled run for forced completion orders; CLI sequential vs --parallel compared field by field."),
         note=("Real OS scheduling, pickling and process start-up are sampled, not modelled; completion orders are forced after all "
-              "futures finished. Cross-file equality is NOT claimed: it fails on the pinned tree (F07a, recorded)."),
+              "futures finished."),
         technique="Lean 4 proof (list permutation lemmas over a parametric state-machine model) + differential runs through the real process pool",
         ref="DESIGN.md §3 C07"),
     "C08": dict(
